@@ -104,6 +104,9 @@ func runLoopScenario(sc loopScenario, drvPath string) (string, string, *download
 		return "oracle", fmt.Sprintf("fetch loop never completed within %d ms although honest peer 1 was available: work taken by a faulty peer was not handed to others (queued=%d, in flight=%v; %s)",
 			loopWatchdogMs, res.PendingBlocks, res.InFlight, strings.Join(asked, "; ")), res
 	}
+	if strings.HasPrefix(res.Err, "panic") {
+		return "crash", "the fetch loop goroutine died (" + res.Err + "): a peer was sized a request with a non-positive count or similar; every peer must be given work with a capacity >= 1", res
+	}
 	if res.Err != "" {
 		return "oracle", "fetch loop ended with error although honest master peer 1 was available: " + res.Err, res
 	}
@@ -206,6 +209,7 @@ func runLoopTier(c *vh.Ctx) {
 		res.DistN("loop-callbacks-compared-with-model", callsCompared)
 	}()
 	for _, sc := range scs {
+		journal(sc.line())
 		kind, what, lr := runLoopScenario(sc, c.Driver)
 		res.Dist("loop-scenarios")
 		if sc.trace {
